@@ -131,3 +131,11 @@ func (s RandCheckedSigner) Sign(rnd io.Reader, digest []byte, opts crypto.Signer
 	}
 	return s.Inner.Sign(rnd, digest, opts)
 }
+
+// FailingSigner is a crypto.Signer whose Sign always fails (a token that is unplugged).
+type FailingSigner struct{ Pub crypto.PublicKey }
+
+func (s FailingSigner) Public() crypto.PublicKey { return s.Pub }
+func (s FailingSigner) Sign(io.Reader, []byte, crypto.SignerOpts) ([]byte, error) {
+	return nil, errors.New("ref: the signing device is not available")
+}
